@@ -22,7 +22,7 @@ pub struct Gen<'a> {
     next_uuid: u128,
 }
 
-const WORDS: &[&str] = &["alpha", "Beta", "gamma delta", "x", "pass word", "naïve", "日本語", "🔑key", "a&b", "<tag>", "q\"uo'te", "line1\nline2", "tab\there", "cr\rlf", " lead", "trail ", "]]>", "&amp;", "#1", "a;b"];
+const WORDS: &[&str] = &["alpha", "Beta", "gamma delta", "x", "pass word", "naïve", "日本語", "🔑key", "a&b", "<tag>", "q\"uo'te", "line1\nline2", "tab\there", "cr\rlf", " lead", "trail ", "]]>", "&amp;", "#1", "a;b", "del\u{7f}x", "nel\u{85}y", "c1\u{9f}\u{80}z", "\u{d7ff}\u{e000}\u{fffd}", "top\u{10ffff}"];
 
 fn ts(secs: i64) -> chrono::NaiveDateTime {
     chrono::DateTime::from_timestamp(secs, 0).unwrap().naive_utc()
@@ -357,7 +357,7 @@ impl<'a> Gen<'a> {
     }
     pub fn config(&mut self) -> DatabaseConfig {
         DatabaseConfig {
-            version: DatabaseVersion::KDB4(*self.rng.pick(&[0u16, 0, 1])),
+            version: DatabaseVersion::KDB4(*self.rng.pick(&[0u16, 0, 1, 1, 2, 300, 65535])),
             outer_cipher_config: self.rng.pick(&[OuterCipherConfig::AES256, OuterCipherConfig::Twofish, OuterCipherConfig::ChaCha20]).clone(),
             compression_config: self.rng.pick(&[CompressionConfig::None, CompressionConfig::GZip]).clone(),
             inner_cipher_config: self.rng.pick(&[InnerCipherConfig::Plain, InnerCipherConfig::Salsa20, InnerCipherConfig::ChaCha20]).clone(),
